@@ -60,10 +60,10 @@ theorem record_roundtrip (r : Record) (h : RecordWF r) : recordUnmarshal (record
   rwa [List.append_nil] at this
 
 /-- Every length-prefixed sample, for each NAL length size 1..4, round-trips. -/
-theorem sample_roundtrip (n : Nat) (_h1 : 1 ≤ n) (_h4 : n ≤ 4) (xs : List Nalu)
+theorem sample_roundtrip (n : Nat) (_h1 : 1 ≤ n) (h4 : n ≤ 4) (xs : List Nalu)
     (h : ∀ x ∈ xs, x.WF ∧ 1 + x.data.length < 256 ^ n) :
     sampleUnmarshal n (sampleMarshal n xs) = ok xs :=
-  sampleLoop_sampleMarshal n xs _ h (Nat.le_refl _)
+  sampleLoop_sampleMarshal n (by omega) xs _ h (Nat.le_refl _)
 
 /-- The marshalled record is byte for byte the ISO/IEC 14496-15 §5.2.4.1.1 layout up to and including the
 picture parameter sets, reserved bits included — for every profile. -/
@@ -156,9 +156,9 @@ theorem nalu_is_spec (n : Nalu) (h : n.WF) :
 the loop's fuel is never exhausted, i.e. it terminates after at most `len` iterations). -/
 theorem decoders_never_panic (bs : Bytes) :
     naluUnmarshal bs ≠ .panic ∧ recordUnmarshal bs ≠ .panic ∧
-    ∀ n, 1 ≤ n → sampleUnmarshal n bs ≠ .panic :=
+    ∀ n, 1 ≤ n → n ≤ 7 → sampleUnmarshal n bs ≠ .panic :=
   ⟨naluUnmarshal_ne_panic bs, recordUnmarshal_ne_panic bs,
-   fun n hn => sampleLoop_ne_panic n hn _ bs (Nat.le_refl _)⟩
+   fun n hn hn7 => sampleLoop_ne_panic n hn hn7 _ bs (Nat.le_refl _)⟩
 
 /-- The String() helpers of the package (translated mechanically from the Go source on every run) are
 total over the whole range of their integer types — `NALUType`/`AVCLevel` are uint8, `AVCProfile` is uint16;
@@ -195,5 +195,11 @@ example : recordMarshal exRecord =
     [1, 100, 0, 31, 0xff, 0xe1, 0, 4, 0x67, 0x42, 0, 0x1e, 2, 0, 2, 0x68, 0xce, 0, 1, 0x08] := by decide
 example : ∀ x ∈ [exNalu], x.WF ∧ 1 + x.data.length < 256 ^ 1 := by
   intro x hx; simp at hx; subst hx; decide
+
+/-- Outside the property's domain (NAL length sizes 1..4, all a configuration record's two bits can express):
+with an EIGHT-byte length field a length of 2^63 or more becomes a negative `int`, passes `len(b) < int(length)`
+and the slice expression panics. The model follows the code there too (tied by the correspondence run for
+sizes 5..8); `decoders_never_panic` therefore stops at 7. -/
+theorem sample_len8_witness : sampleUnmarshal 8 [0x80, 0, 0, 0, 0, 0, 0, 0, 0x65] = .panic := by decide
 
 end Oryx.Props.C12
